@@ -155,8 +155,8 @@ class C12(object):
 
     def make_case(self, rng, idx, tier):
         if idx == 0:
-            return {'kind': 'ambient', 'models': ['SIM', 'PC', 'REG'] if tier == 'quick' else
-                    ['SIM', 'SIMEX1', 'PC', 'REG', 'REG2']}
+            return {'kind': 'ambient', 'models': ['SIM', 'PC', 'REG'] if tier == 'quick' else ['SIM', 'SIMEX1', 'PC', 'REG', 'REG2'],
+                    'scripts': 'fast' if tier == 'quick' else 'all'}
         return {'kind': 'batch', 'bseed': rng.getrandbits(48), 'n': BATCH}
 
     # -----------------------------------------------------------------------------------------
@@ -317,6 +317,10 @@ class C12(object):
                     built.append(name)
                 except Exception:
                     rec.count('ambient.build_failed')
+            which = case.get('scripts')
+            if which:
+                built += ['script:' + n for n in ambient.run_scripts(
+                    ambient.FAST_SCRIPTS if which == 'fast' else ambient.ALL_SCRIPTS, rec)]
         finally:
             monitors.unpatch(undo)
         for k, v in ins.counters.items():
